@@ -1,92 +1,12 @@
 ----------------------------- MODULE MC_CanonABI -----------------------------
 (* The bounded universe of (type, value, pointer width) on which CanonABI is evaluated, and  *)
 (* the vector emission for the harness (GEN mode).  Also the spec's own sanity invariants.   *)
-EXTENDS CanonABI, Json
+EXTENDS CanonValues, Json
 
 CONSTANTS Level,      \* 1: one-level closure over all primitives; 2: + two-level closure over representatives
           NChunks     \* parallelism: vectors are partitioned by type index modulo NChunks
 
------------------------------------------------------------------------------
-\* Boundary values
-
-B0 == <<0, 0, 0, 0>>
-PrimVals(k) ==
-    CASE k = "bool" -> <<FALSE, TRUE>>
-      [] k = "u8" -> << <<0>>, <<1>>, <<128>>, <<255>> >>
-      [] k = "s8" -> << <<0>>, <<1>>, <<255>>, <<128>>, <<127>> >>
-      [] k = "u16" -> << <<0, 0>>, <<1, 0>>, <<255, 255>>, <<0, 128>>, <<52, 18>> >>
-      [] k = "s16" -> << <<0, 0>>, <<1, 0>>, <<255, 255>>, <<0, 128>>, <<255, 127>> >>
-      [] k = "u32" -> << B0, <<1, 0, 0, 0>>, <<255, 255, 255, 255>>, <<0, 0, 0, 128>>, <<120, 86, 52, 18>> >>
-      [] k = "s32" -> << B0, <<1, 0, 0, 0>>, <<255, 255, 255, 255>>, <<0, 0, 0, 128>>, <<255, 255, 255, 127>> >>
-      [] k = "u64" -> << B0 \o B0, <<1, 0, 0, 0>> \o B0, Repeat(255, 8), B0 \o <<0, 0, 0, 128>>, <<8, 7, 6, 5, 4, 3, 2, 1>> >>
-      [] k = "s64" -> << B0 \o B0, <<1, 0, 0, 0>> \o B0, Repeat(255, 8), B0 \o <<0, 0, 0, 128>>, Repeat(255, 7) \o <<127>> >>
-      [] k = "f32" -> << B0, <<0, 0, 0, 128>>, <<0, 0, 128, 63>>, <<1, 0, 192, 127>>, <<1, 0, 128, 127>>, <<0, 0, 128, 255>> >>
-      [] k = "f64" -> << B0 \o B0, B0 \o <<0, 0, 0, 128>>, B0 \o <<0, 0, 240, 63>>, <<1, 0, 0, 0, 0, 0, 248, 127>>,
-                         <<1, 0, 0, 0, 0, 0, 240, 127>> >>
-      [] k = "char" -> << B0, <<65, 0, 0, 0>>, <<127, 0, 0, 0>>, <<255, 215, 0, 0>>, <<0, 224, 0, 0>>, <<255, 255, 16, 0>> >>
-      [] k = "string" -> << <<>>, <<97>>, <<226, 130, 172>>, <<97, 226, 130, 172, 98>> >>
-      [] k = "errctx" -> << <<1, 0, 0, 0>>, <<255, 255, 255, 127>> >>
-
-HandleVals == << <<1, 0, 0, 0>>, <<7, 0, 0, 0>>, <<255, 255, 255, 127>> >>
-
-Sel(s) == IF Len(s) <= 3 THEN s ELSE <<s[1], s[2], s[Len(s)]>>
-Cyc(s, i) == s[((i - 1) % Len(s)) + 1]
-
-RECURSIVE Vals(_)
-Vals(t) ==
-    CASE t.k \in {"bool", "u8", "s8", "u16", "s16", "u32", "s32", "u64", "s64", "f32", "f64", "char", "string", "errctx"} -> PrimVals(t.k)
-      [] t.k \in {"own", "borrow", "future", "stream"} -> HandleVals
-      [] t.k = "list" ->
-            LET e == Vals(t.t) IN << <<>>, <<e[1]>>, <<Cyc(e, 2), Cyc(e, 3), Cyc(e, 4)>>, <<e[Len(e)]>> >>
-      [] t.k = "flist" ->
-            LET e == Vals(t.t) IN IF t.n = 0 THEN << <<>> >>
-                                   ELSE << [i \in 1..t.n |-> Cyc(e, i)], [i \in 1..t.n |-> Cyc(e, i + 1)], [i \in 1..t.n |-> e[Len(e)]] >>
-      [] t.k = "map" ->
-            LET ks == Vals(t.key)
-                vs == Vals(t.val)
-            IN << <<>>, << <<ks[1], vs[1]>> >>,
-                  [i \in 1..(IF Len(ks) >= 3 THEN 3 ELSE Len(ks)) |-> <<ks[i], Cyc(vs, i + 1)>>] >>
-      [] IsRecordLike(t) ->
-            LET n == Len(t.fs)
-                fv(i) == Vals(t.fs[i])
-                base == [i \in 1..n |-> fv(i)[1]]
-            IN << base, [i \in 1..n |-> Cyc(fv(i), 2)], [i \in 1..n |-> fv(i)[Len(fv(i))]] >>
-               \o [j \in 1..n |-> [i \in 1..n |-> IF i = j THEN Cyc(fv(i), 3) ELSE fv(i)[1]]]
-      [] t.k = "variant" ->
-            FlattenSeq([c \in 1..Len(t.cs) |->
-                IF IsNone(t.cs[c]) THEN << [c |-> c - 1, v |-> NoV] >>
-                ELSE LET pv == Sel(Vals(t.cs[c])) IN [j \in 1..Len(pv) |-> [c |-> c - 1, v |-> pv[j]]]])
-      [] t.k = "enum" -> IF t.n = 1 THEN <<0>> ELSE <<0, 1, t.n - 1>>
-      [] t.k = "option" ->
-            LET pv == Vals(t.t) IN << [some |-> FALSE, v |-> NoV] >> \o [j \in 1..Len(pv) |-> [some |-> TRUE, v |-> pv[j]]]
-      [] t.k = "result" ->
-            (IF IsNone(t.ok) THEN << [ok |-> TRUE, v |-> NoV] >>
-             ELSE LET pv == Sel(Vals(t.ok)) IN [j \in 1..Len(pv) |-> [ok |-> TRUE, v |-> pv[j]]])
-            \o (IF IsNone(t.err) THEN << [ok |-> FALSE, v |-> NoV] >>
-                ELSE LET pv == Sel(Vals(t.err)) IN [j \in 1..Len(pv) |-> [ok |-> FALSE, v |-> pv[j]]])
-      [] t.k = "flags" ->
-            IF t.n = 0 THEN << <<>> >>
-            ELSE << [i \in 1..t.n |-> FALSE], [i \in 1..t.n |-> TRUE], [i \in 1..t.n |-> i = 1],
-                    [i \in 1..t.n |-> i = t.n], [i \in 1..t.n |-> i % 2 = 0] >>
-
------------------------------------------------------------------------------
-\* Types
-
-T_list(t) == [k |-> "list", t |-> t]
-T_flist(t, n) == [k |-> "flist", t |-> t, n |-> n]
-T_map(a, b) == [k |-> "map", key |-> a, val |-> b]
-T_rec(fs) == [k |-> "record", fs |-> fs]
-T_tup(fs) == [k |-> "tuple", fs |-> fs]
-T_var(cs) == [k |-> "variant", cs |-> cs]
-T_enum(n) == [k |-> "enum", n |-> n]
-T_opt(t) == [k |-> "option", t |-> t]
-T_res(a, b) == [k |-> "result", ok |-> a, err |-> b]
-T_flags(n) == [k |-> "flags", n |-> n]
-T_own == [k |-> "own", r |-> 0]
-T_borrow == [k |-> "borrow", r |-> 0]
-T_future(t) == [k |-> "future", t |-> t]
-T_stream(t) == [k |-> "stream", t |-> t]
-
+-----------------------------------------------------------------------------------------------------------------------------------------------------
 PT == [i \in 1..Len(Prims) |-> P(Prims[i])]
 NP == Len(PT)
 MapKeys == <<P("bool"), P("u8"), P("s16"), P("u32"), P("s64"), P("char"), P("string")>>
